@@ -1,6 +1,8 @@
 (* Property C04 - a recording starts iff motion persisted, the window is open and storage is OK. *)
 From Coq Require Import List ZArith Bool Lia ZifyBool.
 From TR Require Import model.Ring model.Processor model.ProcAbs model.ProcSpec model.Window proofs.ProcS0304.
+(* constants and wiring read from the Go sources on every run *)
+From TR Require Import proofs.FactsProc proofs.FactsDeps.
 Import ListNotations.
 Open Scope Z_scope.
 
